@@ -48,7 +48,7 @@ Proof.
     match goal with |- gap (charge ?s0 ?s1 ?a ?f).1 = _ =>
       destruct (charge_cases s0 s1 a f) as [-> | ->]; [reflexivity|] end.
     unfold gap; simpl. rewrite asum_insert. lia.
-  - destruct (bal s a - amt <? 0); [reflexivity|].
+  - destruct ((amt <? 0) || (bal s a - amt <? 0)); [reflexivity|].
     match goal with |- gap (charge ?s0 ?s1 ?a ?f).1 = _ =>
       destruct (charge_cases s0 s1 a f) as [-> | ->]; [reflexivity|] end.
     unfold gap; simpl. lia.
@@ -63,7 +63,7 @@ Qed.
 Definition is_donate (o : op) : bool := match o with Donate _ _ _ => true | _ => false end.
 
 Lemma step_donated astr s o :
-  (neg_donation o = false -> donated s <= donated (step astr s o).1) /\
+  donated s <= donated (step astr s o).1 /\
   (is_donate o = false -> donated (step astr s o).1 = donated s).
 Proof.
   destruct o as [accr|a amt fee|a amt fee|a amt fee|a amt fee|a amt fee]; simpl.
@@ -81,18 +81,19 @@ Proof.
   - destruct (rew s a - amt <? 0); [split; intros; simpl; lia|].
     match goal with |- context [charge ?s0 ?s1 ?a ?f] =>
       destruct (charge_cases s0 s1 a f) as [-> | ->] end; simpl; split; intros; lia.
-  - destruct (bal s a - amt <? 0); [split; intros; simpl; try lia; discriminate|].
+  - destruct (amt <? 0) eqn:Hneg; simpl; [split; intros; try lia; discriminate|].
+    apply Z.ltb_ge in Hneg.
+    destruct (bal s a - amt <? 0); [split; intros; simpl; try lia; discriminate|].
     match goal with |- context [charge ?s0 ?s1 ?a ?f] =>
-      destruct (charge_cases s0 s1 a f) as [-> | ->] end; simpl; split; intros H; try discriminate; lia.
+      destruct (charge_cases s0 s1 a f) as [-> | ->] end; simpl; (split; [lia | intros H; discriminate]).
 Qed.
 
-Lemma run_donated_nonneg astr ops : forall s,
-  trig_neg_donation ops = false -> donated s <= donated (run astr s ops).
+(* direct transfers to the pool are never negative (runSendPool checks Amount.IsValid) *)
+Lemma run_donated_nonneg astr ops : forall s, donated s <= donated (run astr s ops).
 Proof.
-  induction ops as [|o ops IH]; intros s H; [simpl; lia|].
-  unfold trig_neg_donation in H. simpl in H. apply orb_false_elim in H as [H1 H2].
-  unfold run in *. simpl. specialize (IH (step astr s o).1 H2).
-  pose proof (proj1 (step_donated astr s o) H1). lia.
+  induction ops as [|o ops IH]; intros s; [simpl; lia|].
+  unfold run in *. simpl. specialize (IH (step astr s o).1).
+  pose proof (proj1 (step_donated astr s o)). lia.
 Qed.
 
 Lemma run_donated_none astr ops : forall s,
@@ -112,14 +113,13 @@ Proof. pose proof (run_gap astr ops s0) as H. unfold gap in H. lia. Qed.
 Lemma run_app astr s a b : run astr s (a ++ b) = run astr (run astr s a) b.
 Proof. unfold run. apply fold_left_app. Qed.
 
-Lemma pool_covers_active_partial astr s0 pre post :
+(* C12_pool_covers_active, full: for every genesis whose pool covers the active set and every
+   history, after every operation (in particular at every block boundary) *)
+Lemma pool_covers_active astr s0 ops :
   asum (active s0) <= pool s0 ->
-  trig_neg_donation (pre ++ post) = false ->
-  asum (active (run astr s0 pre)) <= pool (run astr s0 pre).
+  asum (active (run astr s0 ops)) <= pool (run astr s0 ops).
 Proof.
-  intros H0 Ht. unfold trig_neg_donation in Ht. rewrite existsb_app in Ht.
-  apply orb_false_elim in Ht as [Ht _].
-  pose proof (pool_exact astr s0 pre). pose proof (run_donated_nonneg astr pre s0 Ht). lia.
+  intros H0. pose proof (pool_exact astr s0 ops). pose proof (run_donated_nonneg astr ops s0). lia.
 Qed.
 
 Lemma pool_equals_active_without_donation astr s0 pre post :
@@ -131,7 +131,117 @@ Proof.
 Qed.
 
 (* ------------------------------------------------------------------ *)
-(* 2. maturation: paid exactly once, at the maturity height            *)
+(* ------------------------------------------------------------------ *)
+(* 2. the scans on the key strings: which keys does a block visit?     *)
+(* ------------------------------------------------------------------ *)
+Section Strings.
+Local Open Scope N_scope.
+
+Lemma strip_sep_snoc l c : strip_sep (l ++ [c]) = if (c =? SEP) then l else l ++ [c].
+Proof.
+  induction l as [|x l IH]; [simpl; by destruct (c =? SEP)|].
+  change ((x :: l) ++ [c]) with (x :: (l ++ [c])).
+  destruct (l ++ [c]) as [|z t] eqn:E; [by destruct l|].
+  change (strip_sep (x :: z :: t)) with (x :: strip_sep (z :: t)). rewrite IH.
+  by destruct (c =? SEP).
+Qed.
+
+Definition isdigit (c : N) : Prop := 48 <= c <= 57.
+
+Lemma dec_le_digits f : forall n, Forall isdigit (dec_le f n).
+Proof.
+  induction f as [|f IH]; intros n; cbn [dec_le]; [constructor|].
+  constructor.
+  - unfold isdigit. assert (n mod 10 < 10) by (apply N.mod_upper_bound; done). lia.
+  - destruct (n / 10 =? 0); [constructor | apply IH].
+Qed.
+
+Lemma dec_digits n : Forall isdigit (dec n).
+Proof. unfold dec. apply Forall_rev, dec_le_digits. Qed.
+
+Fixpoint vle (l : bytes) : N := match l with [] => 0 | c :: l' => (c - 48) + 10 * vle l' end.
+
+Lemma vle_dec_le f : forall n, n < 2 ^ N.of_nat f -> vle (dec_le f n) = n.
+Proof.
+  induction f as [|f IH]; intros n Hn.
+  - simpl in *. lia.
+  - rewrite Nat2N.inj_succ, N.pow_succ_r' in Hn. cbn [dec_le vle].
+    pose proof (N.div_mod' n 10) as Hdm. assert (n mod 10 < 10) by (apply N.mod_upper_bound; done).
+    destruct (n / 10 =? 0) eqn:E.
+    + apply N.eqb_eq in E. cbn [vle]. lia.
+    + rewrite IH; [lia|]. apply N.eqb_neq in E. lia.
+Qed.
+
+Lemma dec_val n : vle (rev (dec n)) = n.
+Proof.
+  unfold dec. rewrite rev_involutive. apply vle_dec_le.
+  rewrite Nat2N.inj_succ, N2Nat.id.
+  destruct (N.eq_dec n 0) as [->|Hn]; [vm_compute; reflexivity|].
+  apply N.log2_spec. lia.
+Qed.
+
+Lemma lex_range_sep i : forall k lo hi, lex_le (i ++ [lo]) k = true -> lex_lt k (i ++ [hi]) = true ->
+  exists c rest, k = i ++ c :: rest /\ lo <= c.
+Proof.
+  induction i as [|x i IH]; intros k lo hi H1 H2.
+  - destruct k as [|c rest]; [simpl in H1; discriminate|]. exists c, rest. split; [done|].
+    unfold lex_le in H1. simpl in H1. destruct (c <? lo) eqn:E; [discriminate|]. apply N.ltb_ge in E. lia.
+  - destruct k as [|y k]; [simpl in H1; discriminate|].
+    unfold lex_le in H1. simpl in H1, H2.
+    destruct (y <? x) eqn:E1; [discriminate|].
+    destruct (y =? x) eqn:E2; [|discriminate H2].
+    apply N.eqb_eq in E2; subst. destruct (IH k lo hi) as (c & r & -> & Hc); [exact H1| exact H2 |].
+    by exists c, r.
+Qed.
+
+Lemma digits_sep_eq d : forall e s c rest, Forall isdigit d -> Forall isdigit e -> SEP <= c ->
+  e ++ SEP :: s = d ++ c :: rest -> e = d.
+Proof.
+  induction d as [|x d IH]; intros e s c rest Hd He Hc H.
+  - destruct e as [|y e]; [done|]. inversion He as [|? ? Hy _]; subst. simpl in H. inversion H; subst.
+    unfold isdigit, SEP in *. lia.
+  - inversion Hd as [|? ? Hx Hd']; subst. destruct e as [|y e]; simpl in H; inversion H; subst.
+    + unfold isdigit, SEP in Hx. lia.
+    + inversion He; subst. f_equal. by apply (IH e s c rest).
+Qed.
+
+Lemma dec_inj n h : dec n = dec h -> n = h.
+Proof. intros H. rewrite <- (dec_val n), <- (dec_val h), H. done. Qed.
+
+
+(* the range scan [pfx ++ dec h ++ "_", Rangefix) visits the key pfx ++ dec n ++ "_" ++ addr
+   only if n = h — for both stores *)
+Lemma scan_exact (pfx : bytes) astr h n a :
+  in_range (pfx ++ dec h ++ [SEP]) (pkey_str pfx astr n a) = true -> n = h.
+Proof.
+  unfold in_range, rangefix, pkey_str. intros H. apply andb_true_iff in H as [H1 H2].
+  replace (pfx ++ dec h ++ [SEP]) with ((pfx ++ dec h) ++ [SEP]) in * by (by rewrite <- app_assoc).
+  rewrite strip_sep_snoc, N.eqb_refl in H2.
+  destruct (lex_range_sep _ _ _ _ H1 H2) as (c & rest & Hr & Hc).
+  rewrite <- app_assoc in Hr. apply app_inv_head in Hr.
+  apply dec_inj. by apply (digits_sep_eq (dec h) (dec n) (astr a) c rest (dec_digits h) (dec_digits n) Hc).
+Qed.
+
+Lemma scan_und_exact astr h n a : scan_und astr h n a = true -> n = h.
+Proof. apply scan_exact. Qed.
+Lemma scan_rw_exact astr h n a : scan_rw astr h n a = true -> n = h.
+Proof. apply scan_exact. Qed.
+
+Lemma collides_exact scan h (p : pmap) :
+  (forall n a, scan h n a = true -> n = h) -> collides scan h p = false.
+Proof.
+  intros Hex. unfold collides. apply negb_false_iff, bool_decide_eq_true. intros [n a] v _. simpl.
+  destruct (scan h n a) eqn:E; [|done]. apply Hex in E. subst. by rewrite N.eqb_refl.
+Qed.
+Lemma collides_und_false astr h (p : pmap) : collides (scan_und astr) h p = false.
+Proof. apply collides_exact, scan_und_exact. Qed.
+Lemma collides_rw_false astr h (p : pmap) : collides (scan_rw astr) h p = false.
+Proof. apply collides_exact, scan_rw_exact. Qed.
+
+End Strings.
+
+(* ------------------------------------------------------------------ *)
+(* 3. maturation: paid exactly once, at the maturity height            *)
 (* ------------------------------------------------------------------ *)
 
 Lemma collides_false scan h (p : pmap) : collides scan h p = false ->
@@ -237,95 +347,89 @@ Proof.
   - destruct (rew s a - amt <? 0); [reflexivity|].
     match goal with |- context [charge ?s0 ?s1 ?a ?f] =>
       destruct (charge_proj s0 s1 a f) as [-> | (_ & -> & _)] end; reflexivity.
-  - destruct (bal s a - amt <? 0); [reflexivity|].
+  - destruct ((amt <? 0) || (bal s a - amt <? 0)); [reflexivity|].
     match goal with |- context [charge ?s0 ?s1 ?a ?f] =>
       destruct (charge_proj s0 s1 a f) as [-> | (_ & -> & _)] end; reflexivity.
 Qed.
 
-Lemma step_collided_mono astr s o : collided s = true -> collided (step astr s o).1 = true.
+(* with exact scans no block ever visits a key of another height *)
+Lemma step_collided astr s o : collided (step astr s o).1 = collided s.
 Proof.
-  intros Hc.
   destruct o as [accr|a amt fee|a amt fee|a amt fee|a amt fee|a amt fee]; simpl.
-  - destruct (mature (scan_und astr) (height s + 1) (bal s) (pend s)) as [b1 p1].
-    destruct (mature (scan_rw astr) (height s + 1) b1 (rpend s)) as [b2 rp1]. simpl. by rewrite Hc.
+  - rewrite (mature_nocoll _ _ _ _ (collides_und_false astr _ _)).
+    rewrite (mature_nocoll _ _ _ _ (collides_rw_false astr _ _)). simpl.
+    by rewrite collides_und_false, collides_rw_false, orb_false_r.
   - destruct ((amt <? 0) || (bal s a - amt <? 0)); [done|].
     match goal with |- context [charge ?s0 ?s1 ?a ?f] =>
-      destruct (charge_proj s0 s1 a f) as [-> | (_ & _ & _ & _ & _ & _ & _ & _ & -> & _)] end; done.
+      destruct (charge_proj s0 s1 a f) as [-> | (E1 & E2 & E3 & E4 & E5 & E6 & E7 & E8 & E9 & _)] end; [done|].
+    by rewrite E9.
   - destruct ((aget (active s) a - amt <? 0) || (pool s - amt <? 0)); [done|].
     match goal with |- context [charge ?s0 ?s1 ?a ?f] =>
-      destruct (charge_proj s0 s1 a f) as [-> | (_ & _ & _ & _ & _ & _ & _ & _ & -> & _)] end; done.
+      destruct (charge_proj s0 s1 a f) as [-> | (E1 & E2 & E3 & E4 & E5 & E6 & E7 & E8 & E9 & _)] end; [done|].
+    by rewrite E9.
   - destruct (rew s a - amt <? 0); [done|].
     match goal with |- context [charge ?s0 ?s1 ?a ?f] =>
-      destruct (charge_proj s0 s1 a f) as [-> | (_ & _ & _ & _ & _ & _ & _ & _ & -> & _)] end; done.
+      destruct (charge_proj s0 s1 a f) as [-> | (E1 & E2 & E3 & E4 & E5 & E6 & E7 & E8 & E9 & _)] end; [done|].
+    by rewrite E9.
   - destruct (rew s a - amt <? 0); [done|].
     match goal with |- context [charge ?s0 ?s1 ?a ?f] =>
-      destruct (charge_proj s0 s1 a f) as [-> | (_ & _ & _ & _ & _ & _ & _ & _ & -> & _)] end; done.
-  - destruct (bal s a - amt <? 0); [done|].
+      destruct (charge_proj s0 s1 a f) as [-> | (E1 & E2 & E3 & E4 & E5 & E6 & E7 & E8 & E9 & _)] end; [done|].
+    by rewrite E9.
+  - destruct ((amt <? 0) || (bal s a - amt <? 0)); [done|].
     match goal with |- context [charge ?s0 ?s1 ?a ?f] =>
-      destruct (charge_proj s0 s1 a f) as [-> | (_ & _ & _ & _ & _ & _ & _ & _ & -> & _)] end; done.
+      destruct (charge_proj s0 s1 a f) as [-> | (E1 & E2 & E3 & E4 & E5 & E6 & E7 & E8 & E9 & _)] end; [done|].
+    by rewrite E9.
 Qed.
 
-Lemma run_collided_mono astr ops : forall s, collided s = true -> collided (run astr s ops) = true.
+Lemma no_scan_collides astr ops : forall s, collided (run astr s ops) = collided s.
 Proof.
-  induction ops as [|o ops IH]; intros s H; [done|].
-  unfold run in *. simpl. apply IH. by apply step_collided_mono.
+  induction ops as [|o ops IH]; intros s; [done|].
+  unfold run in *. simpl. rewrite IH. apply step_collided.
 Qed.
 
-(* one step preserves both maturity invariants as long as no scan collided *)
+(* one step preserves both maturity invariants *)
 Lemma step_inv astr p0 rp0 s o :
   inv_und p0 s -> inv_rwd rp0 s -> (1 <= matk s)%N ->
-  collided (step astr s o).1 = false ->
   inv_und p0 (step astr s o).1 /\ inv_rwd rp0 (step astr s o).1.
 Proof.
   intros Iu Ir Hk.
   destruct o as [accr|a amt fee|a amt fee|a amt fee|a amt fee|a amt fee]; simpl.
-  - destruct (collides (scan_und astr) (height s + 1) (pend s)) eqn:C1.
-    { destruct (mature (scan_und astr) (height s + 1) (bal s) (pend s)) as [b1 p1].
-      destruct (mature (scan_rw astr) (height s + 1) b1 (rpend s)) as [b2 rp1]. simpl.
-      rewrite orb_true_r. discriminate. }
-    destruct (collides (scan_rw astr) (height s + 1) (rpend s)) eqn:C2.
-    { destruct (mature (scan_und astr) (height s + 1) (bal s) (pend s)) as [b1 p1].
-      destruct (mature (scan_rw astr) (height s + 1) b1 (rpend s)) as [b2 rp1]. simpl.
-      rewrite orb_true_r. discriminate. }
-    rewrite (mature_nocoll _ _ _ _ C1). rewrite (mature_nocoll _ _ _ _ C2). simpl. intros _.
+  - rewrite (mature_nocoll _ _ _ _ (collides_und_false astr _ _)).
+    rewrite (mature_nocoll _ _ _ _ (collides_rw_false astr _ _)). simpl.
     split; unfold inv_und, inv_rwd; simpl.
     + apply (inv_begin _ _ _ _ (paid s)); [exact Iu|]. intros n a. destruct (n =? height s + 1)%N; lia.
     + apply (inv_begin _ _ _ _ (rpaid s)); [exact Ir|]. intros n a. destruct (n =? height s + 1)%N; lia.
   - destruct ((amt <? 0) || (bal s a - amt <? 0)); [done|].
     match goal with |- context [charge ?s0 ?s1 ?a ?f] =>
-      destruct (charge_proj s0 s1 a f) as [-> | (E1 & E2 & E3 & E4 & E5 & E6 & E7 & E8 & _)] end; [done|].
-    intros _. unfold inv_und, inv_rwd. rewrite E1, E3, E4, E5, E6, E7, E8. simpl. done.
+      destruct (charge_proj s0 s1 a f) as [-> | (E1 & E2 & E3 & E4 & E5 & E6 & E7 & E8 & E9 & _)] end; [done|].
+    unfold inv_und, inv_rwd. rewrite E1, E3, E4, E5, E6, E7, E8. simpl. done.
   - destruct ((aget (active s) a - amt <? 0) || (pool s - amt <? 0)); [done|].
     match goal with |- context [charge ?s0 ?s1 ?a ?f] =>
-      destruct (charge_proj s0 s1 a f) as [-> | (E1 & E2 & E3 & E4 & E5 & E6 & E7 & E8 & _)] end; [done|].
-    intros _. unfold inv_und, inv_rwd. rewrite E1, E3, E4, E5, E6, E7, E8. simpl. split; [|done].
+      destruct (charge_proj s0 s1 a f) as [-> | (E1 & E2 & E3 & E4 & E5 & E6 & E7 & E8 & E9 & _)] end; [done|].
+    unfold inv_und, inv_rwd. rewrite E1, E3, E4, E5, E6, E7, E8. simpl. split; [|done].
     by apply inv_add.
   - destruct (rew s a - amt <? 0); [done|].
     match goal with |- context [charge ?s0 ?s1 ?a ?f] =>
-      destruct (charge_proj s0 s1 a f) as [-> | (E1 & E2 & E3 & E4 & E5 & E6 & E7 & E8 & _)] end; [done|].
-    intros _. unfold inv_und, inv_rwd. rewrite E1, E3, E4, E5, E6, E7, E8. simpl. split; [done|].
+      destruct (charge_proj s0 s1 a f) as [-> | (E1 & E2 & E3 & E4 & E5 & E6 & E7 & E8 & E9 & _)] end; [done|].
+    unfold inv_und, inv_rwd. rewrite E1, E3, E4, E5, E6, E7, E8. simpl. split; [done|].
     by apply inv_add.
   - destruct (rew s a - amt <? 0); [done|].
     match goal with |- context [charge ?s0 ?s1 ?a ?f] =>
-      destruct (charge_proj s0 s1 a f) as [-> | (E1 & E2 & E3 & E4 & E5 & E6 & E7 & E8 & _)] end; [done|].
-    intros _. unfold inv_und, inv_rwd. rewrite E1, E3, E4, E5, E6, E7, E8. simpl. done.
-  - destruct (bal s a - amt <? 0); [done|].
+      destruct (charge_proj s0 s1 a f) as [-> | (E1 & E2 & E3 & E4 & E5 & E6 & E7 & E8 & E9 & _)] end; [done|].
+    unfold inv_und, inv_rwd. rewrite E1, E3, E4, E5, E6, E7, E8. simpl. done.
+  - destruct ((amt <? 0) || (bal s a - amt <? 0)); [done|].
     match goal with |- context [charge ?s0 ?s1 ?a ?f] =>
-      destruct (charge_proj s0 s1 a f) as [-> | (E1 & E2 & E3 & E4 & E5 & E6 & E7 & E8 & _)] end; [done|].
-    intros _. unfold inv_und, inv_rwd. rewrite E1, E3, E4, E5, E6, E7, E8. simpl. done.
+      destruct (charge_proj s0 s1 a f) as [-> | (E1 & E2 & E3 & E4 & E5 & E6 & E7 & E8 & E9 & _)] end; [done|].
+    unfold inv_und, inv_rwd. rewrite E1, E3, E4, E5, E6, E7, E8. simpl. done.
 Qed.
 
 Lemma run_inv astr p0 rp0 ops : forall s,
   inv_und p0 s -> inv_rwd rp0 s -> (1 <= matk s)%N ->
-  collided (run astr s ops) = false ->
   inv_und p0 (run astr s ops) /\ inv_rwd rp0 (run astr s ops).
 Proof.
-  induction ops as [|o ops IH]; intros s Iu Ir Hk Hc; [done|].
+  induction ops as [|o ops IH]; intros s Iu Ir Hk; [done|].
   unfold run in *. simpl in *.
-  assert (Hs : collided (step astr s o).1 = false).
-  { destruct (collided (step astr s o).1) eqn:E; [|done].
-    pose proof (run_collided_mono astr ops _ E) as H. unfold run in H. congruence. }
-  destruct (step_inv astr p0 rp0 s o Iu Ir Hk Hs) as [Iu' Ir'].
+  destruct (step_inv astr p0 rp0 s o Iu Ir Hk) as [Iu' Ir'].
   apply IH; auto. by rewrite step_matk.
 Qed.
 
@@ -333,37 +437,33 @@ Lemma inv_genesis k b pl ac pe rw rp :
   inv_und pe (genesis k b pl ac pe rw rp) /\ inv_rwd rp (genesis k b pl ac pe rw rp).
 Proof. split; repeat split; simpl; intros; lia. Qed.
 
-(* C12_paid_once_at_maturity (partial: no scan collided).  For every genesis and history:
+(* C12_paid_once_at_maturity, full.  For every genesis and history:
    at every executed block n the maturation routine credited delegator a exactly the amount due
    at n (genesis entry for (n,a) + the successful undelegations maturing at n), nothing is credited
    for a height not yet reached, and what is not yet due is still pending. *)
-Lemma paid_once_partial astr k b pl ac pe rw rp ops :
+Lemma paid_once astr k b pl ac pe rw rp ops :
   (1 <= k)%N ->
-  let s0 := genesis k b pl ac pe rw rp in
-  let s := run astr s0 ops in
-  trig_collision astr s0 ops = false ->
+  let s := run astr (genesis k b pl ac pe rw rp) ops in
   forall n a,
     ((1 <= n <= height s)%N -> paid s n a = und s n a + pget pe n a) /\
     ((height s < n)%N -> paid s n a = 0 /\ pget (pend s) n a = und s n a + pget pe n a).
 Proof.
-  intros Hk s0 s Ht n a.
+  intros Hk s n a.
   destruct (inv_genesis k b pl ac pe rw rp) as [Iu Ir].
-  destruct (run_inv astr pe rp ops s0 Iu Ir Hk Ht) as [(I1 & I2 & I3) _].
+  destruct (run_inv astr pe rp ops _ Iu Ir Hk) as [(I1 & I2 & I3) _].
   split; intros Hn; [by apply I2|]. split; [by apply I3 | by apply I1].
 Qed.
 
-Lemma rewards_paid_once_partial astr k b pl ac pe rw rp ops :
+Lemma rewards_paid_once astr k b pl ac pe rw rp ops :
   (1 <= k)%N ->
-  let s0 := genesis k b pl ac pe rw rp in
-  let s := run astr s0 ops in
-  trig_collision astr s0 ops = false ->
+  let s := run astr (genesis k b pl ac pe rw rp) ops in
   forall n a,
     ((1 <= n <= height s)%N -> rpaid s n a = rwd s n a + pget rp n a) /\
     ((height s < n)%N -> rpaid s n a = 0 /\ pget (rpend s) n a = rwd s n a + pget rp n a).
 Proof.
-  intros Hk s0 s Ht n a.
+  intros Hk s n a.
   destruct (inv_genesis k b pl ac pe rw rp) as [Iu Ir].
-  destruct (run_inv astr pe rp ops s0 Iu Ir Hk Ht) as [_ (I1 & I2 & I3)].
+  destruct (run_inv astr pe rp ops _ Iu Ir Hk) as [_ (I1 & I2 & I3)].
   split; intros Hn; [by apply I2|]. split; [by apply I3 | by apply I1].
 Qed.
 
@@ -379,7 +479,7 @@ Proof.
 Qed.
 
 (* ------------------------------------------------------------------ *)
-(* 3. reward withdrawals never exceed the accrued reward balance       *)
+(* 4. reward withdrawals never exceed the accrued reward balance       *)
 (* ------------------------------------------------------------------ *)
 
 Lemma add_accr_diff l : forall f g a, add_accr f l a - add_accr g l a = f a - g a.
@@ -433,7 +533,7 @@ Proof.
       destruct (charge_proj s0 s1 a f) as [-> | (_ & _ & _ & _ & _ & _ & _ & _ & _ & -> & -> & ->)] end;
       simpl; [simpl; split; [lia|intros H _; apply H]|].
     unfold fupd. destruct (a =? a0)%N eqn:E; [apply N.eqb_eq in E; subst|]; (split; [lia|intros H _; try apply H; lia]).
-  - destruct (bal s a0 - amt <? 0); [simpl; split; [lia|intros H _; apply H]|].
+  - destruct ((amt <? 0) || (bal s a0 - amt <? 0)); [simpl; split; [lia|intros H _; apply H]|].
     match goal with |- context [charge ?s0 ?s1 ?a ?f] =>
       destruct (charge_proj s0 s1 a f) as [-> | (_ & _ & _ & _ & _ & _ & _ & _ & _ & -> & -> & ->)] end;
       simpl; (split; [lia|intros H _; apply H]).
@@ -465,240 +565,124 @@ Proof.
 Qed.
 
 (* ------------------------------------------------------------------ *)
-(* 4. the scans on the key strings: which keys does a block visit?     *)
 (* ------------------------------------------------------------------ *)
-Section Strings.
-Local Open Scope N_scope.
+(* 5. matured payments are payments: never negative                    *)
+(* ------------------------------------------------------------------ *)
 
-Lemma lex_range_prefix d : forall k hi, lex_le d k = true -> lex_lt k (d ++ [hi]) = true -> exists rest, k = d ++ rest.
+Definition nn (f : N -> addr -> Z) : Prop := forall n a, 0 <= f n a.
+
+Lemma nn_fupd2 f n a v : nn f -> 0 <= v -> nn (fupd2 f n a v).
+Proof. intros Hf Hv m x. unfold fupd2. destruct ((m =? n) && (x =? a))%N; [done | apply Hf]. Qed.
+
+Lemma step_nn astr s o :
+  neg_undelegate o = false -> neg_withdraw o = false ->
+  nn (und s) -> nn (rwd s) -> nn (und (step astr s o).1) /\ nn (rwd (step astr s o).1).
 Proof.
-  induction d as [|x d IH]; intros k hi H1 H2; [by exists k|].
-  destruct k as [|y k]; [simpl in H1; discriminate|].
-  unfold lex_le in H1. simpl in H1, H2.
-  destruct (y <? x) eqn:E1; [discriminate|].
-  destruct (y =? x) eqn:E2; [|discriminate H2].
-  apply N.eqb_eq in E2; subst. destruct (IH k hi) as [r ->]; [exact H1| exact H2 |]. by exists r.
-Qed.
-
-Lemma strip_sep_snoc l c : strip_sep (l ++ [c]) = if (c =? SEP) then l else l ++ [c].
-Proof.
-  induction l as [|x l IH]; [simpl; by destruct (c =? SEP)|].
-  change ((x :: l) ++ [c]) with (x :: (l ++ [c])).
-  destruct (l ++ [c]) as [|z t] eqn:E; [by destruct l|].
-  change (strip_sep (x :: z :: t)) with (x :: strip_sep (z :: t)). rewrite IH.
-  by destruct (c =? SEP).
-Qed.
-
-Definition isdigit (c : N) : Prop := 48 <= c <= 57.
-
-Lemma dec_le_digits f : forall n, Forall isdigit (dec_le f n).
-Proof.
-  induction f as [|f IH]; intros n; cbn [dec_le]; [constructor|].
-  constructor.
-  - unfold isdigit. assert (n mod 10 < 10) by (apply N.mod_upper_bound; done). lia.
-  - destruct (n / 10 =? 0); [constructor | apply IH].
-Qed.
-
-Lemma dec_digits n : Forall isdigit (dec n).
-Proof. unfold dec. apply Forall_rev, dec_le_digits. Qed.
-
-Lemma dec_snoc n : exists l, dec n = l ++ [48 + n mod 10].
-Proof. unfold dec. simpl. eexists. reflexivity. Qed.
-
-Lemma nosep_prefix d : forall e rest s, Forall isdigit d -> d ++ rest = e ++ SEP :: s -> exists t, e = d ++ t.
-Proof.
-  induction d as [|x d IH]; intros e rest s Hd H; [by exists e|].
-  inversion Hd as [|? ? Hx Hd']; subst.
-  destruct e as [|y e]; simpl in H.
-  - inversion H; subst. unfold isdigit, SEP in Hx. lia.
-  - inversion H; subst. destruct (IH e rest s Hd' H2) as [t ->]. by exists t.
-Qed.
-
-Fixpoint vle (l : bytes) : N := match l with [] => 0 | c :: l' => (c - 48) + 10 * vle l' end.
-
-Lemma vle_dec_le f : forall n, n < 2 ^ N.of_nat f -> vle (dec_le f n) = n.
-Proof.
-  induction f as [|f IH]; intros n Hn.
-  - simpl in *. lia.
-  - rewrite Nat2N.inj_succ, N.pow_succ_r' in Hn. cbn [dec_le vle].
-    pose proof (N.div_mod' n 10) as Hdm. assert (n mod 10 < 10) by (apply N.mod_upper_bound; done).
-    destruct (n / 10 =? 0) eqn:E.
-    + apply N.eqb_eq in E. cbn [vle]. lia.
-    + rewrite IH; [lia|]. apply N.eqb_neq in E. lia.
-Qed.
-
-Lemma dec_val n : vle (rev (dec n)) = n.
-Proof.
-  unfold dec. rewrite rev_involutive. apply vle_dec_le.
-  rewrite Nat2N.inj_succ, N2Nat.id.
-  destruct (N.eq_dec n 0) as [->|Hn]; [vm_compute; reflexivity|].
-  apply N.log2_spec. lia.
-Qed.
-
-Lemma vle_app l1 : forall l2, vle (l1 ++ l2) = vle l1 + 10 ^ N.of_nat (length l1) * vle l2.
-Proof.
-  induction l1 as [|c l1 IH]; intros l2; [cbn [app vle length]; change (N.of_nat 0) with 0; rewrite N.pow_0_r; lia|].
-  simpl length. rewrite Nat2N.inj_succ, N.pow_succ_r'. cbn [app vle]. rewrite IH. rewrite N.mul_add_distr_l, !N.mul_assoc. lia.
-Qed.
-
-Lemma dec_prefix_arith h n t : dec n = dec h ++ t -> n = h \/ 10 * h <= n.
-Proof.
-  intros H. pose proof (dec_val n) as Hn. rewrite H, rev_app_distr, vle_app, dec_val in Hn.
-  destruct t as [|c t]; [left; cbn [rev app vle length] in Hn; change (N.of_nat 0) with 0 in Hn; rewrite N.pow_0_r in Hn; lia|right].
-  rewrite rev_length in Hn. simpl length in Hn. rewrite Nat2N.inj_succ, N.pow_succ_r' in Hn.
-  assert (1 <= 10 ^ N.of_nat (length t)) by (pose proof (N.pow_nonzero 10 (N.of_nat (length t))); lia).
-  nia.
-Qed.
-
-Lemma scan_und_char astr h n a : scan_und astr h n a = true -> n = h \/ 10 * h <= n.
-Proof.
-  unfold scan_und, in_range, rangefix, pkey_str. intros H. apply andb_true_iff in H as [H1 H2].
-  destruct (dec_snoc h) as [l Hl].
-  assert (Hs : strip_sep (PFX_P ++ dec h) = PFX_P ++ dec h).
-  { rewrite Hl, app_assoc, strip_sep_snoc.
-    destruct (48 + h mod 10 =? SEP) eqn:E; [|done]. apply N.eqb_eq in E. unfold SEP in E.
-    assert (h mod 10 < 10) by (apply N.mod_upper_bound; done). lia. }
-  rewrite Hs in H2.
-  destruct (lex_range_prefix _ _ _ H1 H2) as [rest Hr].
-  rewrite <- app_assoc in Hr. apply app_inv_head in Hr. symmetry in Hr.
-  destruct (nosep_prefix _ _ _ _ (dec_digits h) Hr) as [t Ht].
-  by apply (dec_prefix_arith h n t).
-Qed.
-
-Lemma lex_range_sep i : forall k lo hi, lex_le (i ++ [lo]) k = true -> lex_lt k (i ++ [hi]) = true ->
-  exists c rest, k = i ++ c :: rest /\ lo <= c.
-Proof.
-  induction i as [|x i IH]; intros k lo hi H1 H2.
-  - destruct k as [|c rest]; [simpl in H1; discriminate|]. exists c, rest. split; [done|].
-    unfold lex_le in H1. simpl in H1. destruct (c <? lo) eqn:E; [discriminate|]. apply N.ltb_ge in E. lia.
-  - destruct k as [|y k]; [simpl in H1; discriminate|].
-    unfold lex_le in H1. simpl in H1, H2.
-    destruct (y <? x) eqn:E1; [discriminate|].
-    destruct (y =? x) eqn:E2; [|discriminate H2].
-    apply N.eqb_eq in E2; subst. destruct (IH k lo hi) as (c & r & -> & Hc); [exact H1| exact H2 |].
-    by exists c, r.
-Qed.
-
-Lemma digits_sep_eq d : forall e s c rest, Forall isdigit d -> Forall isdigit e -> SEP <= c ->
-  e ++ SEP :: s = d ++ c :: rest -> e = d.
-Proof.
-  induction d as [|x d IH]; intros e s c rest Hd He Hc H.
-  - destruct e as [|y e]; [done|]. inversion He as [|? ? Hy _]; subst. simpl in H. inversion H; subst.
-    unfold isdigit, SEP in *. lia.
-  - inversion Hd as [|? ? Hx Hd']; subst. destruct e as [|y e]; simpl in H; inversion H; subst.
-    + unfold isdigit, SEP in Hx. lia.
-    + inversion He; subst. f_equal. by apply (IH e s c rest).
-Qed.
-
-Lemma dec_inj n h : dec n = dec h -> n = h.
-Proof. intros H. rewrite <- (dec_val n), <- (dec_val h), H. done. Qed.
-
-Lemma scan_rw_exact astr h n a : scan_rw astr h n a = true -> n = h.
-Proof.
-  unfold scan_rw, in_range, rangefix, pkey_str. intros H. apply andb_true_iff in H as [H1 H2].
-  replace (PFX_R ++ dec h ++ [SEP]) with ((PFX_R ++ dec h) ++ [SEP]) in * by (by rewrite <- app_assoc).
-  rewrite strip_sep_snoc, N.eqb_refl in H2.
-  destruct (lex_range_sep _ _ _ _ H1 H2) as (c & rest & Hr & Hc).
-  rewrite <- app_assoc in Hr. apply app_inv_head in Hr.
-  apply dec_inj. by apply (digits_sep_eq (dec h) (dec n) (astr a) c rest (dec_digits h) (dec_digits n) Hc).
-Qed.
-
-Lemma collides_rw_false astr h (p : pmap) : collides (scan_rw astr) h p = false.
-Proof.
-  unfold collides. apply negb_false_iff, bool_decide_eq_true. intros [n a] v _. simpl.
-  destruct (scan_rw astr h n a) eqn:E; [|done]. apply scan_rw_exact in E. subst. by rewrite N.eqb_refl.
-Qed.
-
-(* invariant of chains whose pending entries all stem from transactions *)
-Definition inv_tx (s : st) : Prop :=
-  1 <= height s /\ matk s <= 18 /\ collided s = false /\
-  forall n a v, pend s !! (n, a) = Some v -> n <= height s + matk s.
-
-Lemma inv_tx_no_collision astr s : inv_tx s -> collides (scan_und astr) (height s + 1) (pend s) = false.
-Proof.
-  intros (Hh & Hk & _ & Hp). unfold collides. apply negb_false_iff, bool_decide_eq_true.
-  intros [n a] v Hl. simpl. specialize (Hp n a v Hl).
-  destruct (scan_und astr (height s + 1) n a) eqn:E; [|done].
-  apply scan_und_char in E. destruct E as [-> | E]; [by rewrite N.eqb_refl|]. lia.
-Qed.
-
-Lemma own_zero_lookup h (p : pmap) key v : own_zero h p !! key = Some v -> exists v0, p !! key = Some v0.
-Proof.
-  unfold own_zero, pmap in *. rewrite map_lookup_imap. destruct (p !! key) eqn:E; [by eexists|done].
-Qed.
-
-Lemma step_inv_tx astr s o : inv_tx s -> inv_tx (step astr s o).1.
-Proof.
-  intros I. pose proof I as (Hh & Hk & Hc & Hp).
-  destruct o as [accr|a amt fee|a amt fee|a amt fee|a amt fee|a amt fee]; simpl.
-  - rewrite (mature_nocoll _ _ _ _ (inv_tx_no_collision astr s I)).
-    rewrite (mature_nocoll _ _ _ _ (collides_rw_false astr _ _)). simpl.
-    rewrite (inv_tx_no_collision astr s I), (collides_rw_false astr), Hc. simpl.
-    unfold inv_tx; simpl. split; [lia|]. split; [lia|]. split; [done|].
-    intros n a v Hl. apply own_zero_lookup in Hl as [v0 Hl]. specialize (Hp n a v0 Hl). lia.
-  - destruct ((amt <? 0)%Z || (bal s a - amt <? 0)%Z); [done|].
+  intros Hu Hw Nu Nr.
+  destruct o as [accr|a amt fee|a amt fee|a amt fee|a amt fee|a amt fee]; simpl in *.
+  - destruct (mature (scan_und astr) (height s + 1) (bal s) (pend s)) as [b1 p1].
+    destruct (mature (scan_rw astr) (height s + 1) b1 (rpend s)) as [b2 rp1]. done.
+  - destruct ((amt <? 0) || (bal s a - amt <? 0)); [done|].
     match goal with |- context [charge ?s0 ?s1 ?a ?f] =>
-      destruct (charge_proj s0 s1 a f) as [-> | (E1 & E2 & E3 & _ & _ & _ & _ & _ & E9 & _)] end; [done|].
-    unfold inv_tx. rewrite E1, E2, E3, E9. simpl. done.
-  - destruct ((aget (active s) a - amt <? 0)%Z || (pool s - amt <? 0)%Z); [done|].
+      destruct (charge_proj s0 s1 a f) as [-> | (E1 & E2 & E3 & E4 & E5 & E6 & E7 & E8 & E9 & _)] end; [done|].
+    rewrite E4, E7. done.
+  - destruct ((aget (active s) a - amt <? 0) || (pool s - amt <? 0)); [done|].
     match goal with |- context [charge ?s0 ?s1 ?a ?f] =>
-      destruct (charge_proj s0 s1 a f) as [-> | (E1 & E2 & E3 & _ & _ & _ & _ & _ & E9 & _)] end; [done|].
-    unfold inv_tx. rewrite E1, E2, E3, E9. simpl. repeat split; try done.
-    intros n a' v Hl. unfold pmap in *. apply lookup_insert_Some in Hl as [[Hl _]|[_ Hl]].
-    + inversion Hl; subst. lia.
-    + by apply (Hp n a' v).
-  - destruct (rew s a - amt <? 0)%Z; [done|].
+      destruct (charge_proj s0 s1 a f) as [-> | (E1 & E2 & E3 & E4 & E5 & E6 & E7 & E8 & E9 & _)] end; [done|].
+    rewrite E4, E7. simpl. split; [|done]. apply Z.ltb_ge in Hu.
+    apply nn_fupd2; [done|]. specialize (Nu (height s + matk s)%N a). lia.
+  - destruct (rew s a - amt <? 0); [done|].
     match goal with |- context [charge ?s0 ?s1 ?a ?f] =>
-      destruct (charge_proj s0 s1 a f) as [-> | (E1 & E2 & E3 & _ & _ & _ & _ & _ & E9 & _)] end; [done|].
-    unfold inv_tx. rewrite E1, E2, E3, E9. simpl. done.
-  - destruct (rew s a - amt <? 0)%Z; [done|].
+      destruct (charge_proj s0 s1 a f) as [-> | (E1 & E2 & E3 & E4 & E5 & E6 & E7 & E8 & E9 & _)] end; [done|].
+    rewrite E4, E7. simpl. split; [done|]. apply Z.ltb_ge in Hw.
+    apply nn_fupd2; [done|]. specialize (Nr (height s + matk s)%N a). lia.
+  - destruct (rew s a - amt <? 0); [done|].
     match goal with |- context [charge ?s0 ?s1 ?a ?f] =>
-      destruct (charge_proj s0 s1 a f) as [-> | (E1 & E2 & E3 & _ & _ & _ & _ & _ & E9 & _)] end; [done|].
-    unfold inv_tx. rewrite E1, E2, E3, E9. simpl. done.
-  - destruct (bal s a - amt <? 0)%Z; [done|].
+      destruct (charge_proj s0 s1 a f) as [-> | (E1 & E2 & E3 & E4 & E5 & E6 & E7 & E8 & E9 & _)] end; [done|].
+    rewrite E4, E7. done.
+  - destruct ((amt <? 0) || (bal s a - amt <? 0)); [done|].
     match goal with |- context [charge ?s0 ?s1 ?a ?f] =>
-      destruct (charge_proj s0 s1 a f) as [-> | (E1 & E2 & E3 & _ & _ & _ & _ & _ & E9 & _)] end; [done|].
-    unfold inv_tx. rewrite E1, E2, E3, E9. simpl. done.
+      destruct (charge_proj s0 s1 a f) as [-> | (E1 & E2 & E3 & E4 & E5 & E6 & E7 & E8 & E9 & _)] end; [done|].
+    rewrite E4, E7. done.
 Qed.
 
-Lemma run_inv_tx astr ops : forall s, inv_tx s -> inv_tx (run astr s ops).
+Lemma run_nn astr ops : forall s,
+  trig_neg_undelegate ops = false -> trig_neg_withdraw ops = false ->
+  nn (und s) -> nn (rwd s) -> nn (und (run astr s ops)) /\ nn (rwd (run astr s ops)).
 Proof.
-  induction ops as [|o ops IH]; intros s I; [done|]. unfold run in *. simpl. by apply IH, step_inv_tx.
+  induction ops as [|o ops IH]; intros s Hu Hw Nu Nr; [done|].
+  unfold trig_neg_undelegate, trig_neg_withdraw in *. simpl in Hu, Hw.
+  apply orb_false_elim in Hu as [Hu1 Hu2]. apply orb_false_elim in Hw as [Hw1 Hw2].
+  unfold run in *. simpl. destruct (step_nn astr s o Hu1 Hw1 Nu Nr) as [Nu' Nr']. by apply IH.
 Qed.
 
-(* From a genesis WITHOUT pending undelegations, with maturity period k <= 18, no scan ever
-   collides — for every history that starts with a BeginBlock (transactions live in blocks). *)
-Lemma no_collision_from_empty_genesis astr k b pl ac rw rp accr ops :
-  k <= 18 ->
-  trig_collision astr (genesis k b pl ac ∅ rw rp) (Begin accr :: ops) = false.
+(* outside the triggers C12.negative_undelegate / C12.negative_reward_withdrawal and with a genesis
+   whose pending entries are non-negative, every matured payment is non-negative: BeginBlock never
+   takes money from a delegator *)
+Lemma payments_nonneg_partial astr k b pl ac pe rw rp ops :
+  (1 <= k)%N ->
+  (forall n a, 0 <= pget pe n a) -> (forall n a, 0 <= pget rp n a) ->
+  trig_neg_undelegate ops = false -> trig_neg_withdraw ops = false ->
+  let s := run astr (genesis k b pl ac pe rw rp) ops in
+  forall n a, (1 <= n)%N -> 0 <= paid s n a /\ 0 <= rpaid s n a.
 Proof.
-  intros Hk. unfold trig_collision.
-  change (run astr ?s (?o :: ?l)) with (run astr (step astr s o).1 l).
-  apply run_inv_tx. simpl.
-  assert (C1 : collides (scan_und astr) (0 + 1) (∅ : pmap) = false).
-  { unfold collides. apply negb_false_iff, bool_decide_eq_true. apply map_Forall_empty. }
-  rewrite (mature_nocoll _ _ _ _ C1), (mature_nocoll _ _ _ _ (collides_rw_false astr _ _)). simpl.
-  rewrite C1, (collides_rw_false astr). simpl.
-  unfold inv_tx; simpl. split; [lia|]. split; [lia|]. split; [done|].
-  intros n a v Hl. apply own_zero_lookup in Hl as [v0 Hl]. unfold pmap in *. by rewrite lookup_empty in Hl.
+  intros Hk Hpe Hrp Hu Hw s n a Hn.
+  destruct (run_nn astr ops (genesis k b pl ac pe rw rp) Hu Hw) as [Nu Nr]; [by intros ? ?|by intros ? ?|].
+  fold s in Nu, Nr.
+  destruct (paid_once astr k b pl ac pe rw rp ops Hk n a) as [P1 P2].
+  destruct (rewards_paid_once astr k b pl ac pe rw rp ops Hk n a) as [R1 R2]. fold s in P1, P2, R1, R2.
+  destruct (N.le_gt_cases n (height s)) as [Hle|Hgt].
+  - rewrite P1, R1 by lia. specialize (Nu n a). specialize (Nr n a). specialize (Hpe n a). specialize (Hrp n a). lia.
+  - destruct (P2 Hgt) as [-> _]. destruct (R2 Hgt) as [-> _]. lia.
 Qed.
 
-Lemma pget_empty n a : pget (∅ : pmap) n a = 0%Z.
-Proof. unfold pget, pmap. by rewrite lookup_empty. Qed.
+(* ------------------------------------------------------------------ *)
+(* 6. active delegations are never negative                            *)
+(* ------------------------------------------------------------------ *)
 
-Lemma paid_once_from_empty_genesis astr k b pl ac rw rp accr ops :
-  1 <= k <= 18 ->
-  let s := run astr (genesis k b pl ac ∅ rw rp) (Begin accr :: ops) in
-  forall n a,
-    (1 <= n <= height s -> paid s n a = und s n a) /\
-    (height s < n -> paid s n a = 0%Z /\ pget (pend s) n a = und s n a).
+Lemma aget_insert (m : gmap addr Z) a v x : aget (<[a:=v]> m) x = if (x =? a)%N then v else aget m x.
 Proof.
-  intros [Hk1 Hk2] s n a.
-  pose proof (paid_once_partial astr k b pl ac ∅ rw rp (Begin accr :: ops) Hk1
-                (no_collision_from_empty_genesis astr k b pl ac rw rp accr ops Hk2) n a) as H.
-  rewrite pget_empty in H. fold s in H.
-  destruct H as [H1 H2]. split; intros Hn; [rewrite (H1 Hn); lia|].
-  destruct (H2 Hn) as [-> ->]. split; lia.
+  unfold aget. destruct (x =? a)%N eqn:E.
+  - apply N.eqb_eq in E. subst. by rewrite lookup_insert.
+  - apply N.eqb_neq in E. by rewrite lookup_insert_ne.
 Qed.
 
-End Strings.
+Definition active_nn (s : st) : Prop := forall x, 0 <= aget (active s) x.
+
+Lemma step_active_nn astr s o : neg_reinvest o = false -> active_nn s -> active_nn (step astr s o).1.
+Proof.
+  intros Hr Ha.
+  destruct o as [accr|a amt fee|a amt fee|a amt fee|a amt fee|a amt fee]; simpl in *.
+  - destruct (mature (scan_und astr) (height s + 1) (bal s) (pend s)) as [b1 p1].
+    destruct (mature (scan_rw astr) (height s + 1) b1 (rpend s)) as [b2 rp1]. done.
+  - destruct (amt <? 0) eqn:Hneg; simpl; [done|]. apply Z.ltb_ge in Hneg.
+    destruct (bal s a - amt <? 0); [done|].
+    match goal with |- context [charge ?s0 ?s1 ?a ?f] =>
+      destruct (charge_cases s0 s1 a f) as [-> | ->] end; [done|].
+    intros x. simpl. rewrite aget_insert. destruct (x =? a)%N; [|apply Ha]. specialize (Ha a). lia.
+  - destruct (aget (active s) a - amt <? 0) eqn:Hrem; simpl; [done|]. apply Z.ltb_ge in Hrem.
+    destruct (pool s - amt <? 0); [done|].
+    match goal with |- context [charge ?s0 ?s1 ?a ?f] =>
+      destruct (charge_cases s0 s1 a f) as [-> | ->] end; [done|].
+    intros x. simpl. rewrite aget_insert. destruct (x =? a)%N; [lia|apply Ha].
+  - destruct (rew s a - amt <? 0); [done|].
+    match goal with |- context [charge ?s0 ?s1 ?a ?f] =>
+      destruct (charge_cases s0 s1 a f) as [-> | ->] end; done.
+  - apply Z.ltb_ge in Hr. destruct (rew s a - amt <? 0); [done|].
+    match goal with |- context [charge ?s0 ?s1 ?a ?f] =>
+      destruct (charge_cases s0 s1 a f) as [-> | ->] end; [done|].
+    intros x. simpl. rewrite aget_insert. destruct (x =? a)%N; [|apply Ha]. specialize (Ha a). lia.
+  - destruct ((amt <? 0) || (bal s a - amt <? 0)); [done|].
+    match goal with |- context [charge ?s0 ?s1 ?a ?f] =>
+      destruct (charge_cases s0 s1 a f) as [-> | ->] end; done.
+Qed.
+
+(* outside the trigger C12.negative_reinvest, from a genesis with non-negative active delegations,
+   no active delegation is ever negative (so "pool >= sum active" really covers every delegator) *)
+Lemma active_nonneg_partial astr ops : forall s,
+  trig_neg_reinvest ops = false -> active_nn s -> active_nn (run astr s ops).
+Proof.
+  induction ops as [|o ops IH]; intros s Hr Ha; [done|].
+  unfold trig_neg_reinvest in *. simpl in Hr. apply orb_false_elim in Hr as [Hr1 Hr2].
+  unfold run in *. simpl. apply IH; [done|]. by apply step_active_nn.
+Qed.
